@@ -52,7 +52,16 @@ def shape(name, build, defs, assumptions=None):
     """defs(ctx) -> [(clause name, guard, clause)]"""
 
     def obligations(ctx):
-        return [Ob(f"{PROP}/{name}/{cn}", "sound", clause=cl, guard=g) for cn, g, cl in defs(ctx)]
+        obs = [Ob(f"{PROP}/{name}/{cn}", "sound", clause=cl, guard=g) for cn, g, cl in defs(ctx)]
+        # the bounds a built-in indicator declares for itself (the optimisers stop on them) hold for every schedule
+        for k, ind in enumerate(ctx.problem.indicators.values()):
+            b = getattr(ind, "bounds", None)
+            if b is None or isinstance(ind, ps.IndicatorFromMathExpression):
+                continue
+            v = ind._indicator_variable
+            parts = ([v >= to_z3(b[0])] if b[0] is not None else []) + ([v <= to_z3(b[1])] if len(b) > 1 and b[1] is not None else [])
+            obs.append(Ob(f"{PROP}/{name}/declared_bounds_of_indicator_{k}_hold", "sound", clause=And(parts)))
+        return obs
 
     sh = Shape(name, build, obligations)
     if assumptions:
@@ -249,6 +258,18 @@ def cost_shapes(tier):
             return [("constant_cost_times_busy_time", True, v == tot)]
 
         out.append(shape(f"cost_constant/{how}", build, defs))
+    # a worker that pays back (negative constant cost): the total may be negative
+    def build_neg(P):
+        pb, hv = new_problem(P, False)
+        tis = _tasks(P, ("fixed", "var"), (False, True))
+        w = ps.Worker(name="W", cost=ps.ConstantFunction(value=P.int("cost", ph=-2, lo=-5, hi=-1)))
+        for t in tis:
+            t.obj.add_required_resource(w)
+        ind = ps.IndicatorResourceCost(list_of_resources=[w])
+        return Ctx(problem=pb, tis=tis, w=w, ind=ind, c=P.v("cost"))
+
+    out.append(shape("cost_constant/negative", build_neg,
+                     lambda ctx: [("constant_cost_times_busy_time", True, ctx.ind._indicator_variable == Sum([to_z3(ctx.c) * (be - bs) for bs, be in ctx.w._busy_intervals.values()]))]))
     # linear cost: exact integral of slope*t+intercept over each busy interval, within the final /2
     grid = [(0, 0), (1, 0), (2, 1), (3, 5)] if tier == "quick" else list(itertools.product(range(0, 5), range(0, 4)))
     for slope, icpt in grid + [("sym", "sym")]:
